@@ -323,6 +323,13 @@ def run(ctx, rng):
             ctx.count(('hess', cname, x0.tolist()), nontrivial=True)
             check('hessian_mode', f'hessian-mode:{cname}', abs(J1 - J2).max(), abs(J2).max(), desc)
             check('hessian_mode', f'hessian-mode:{cname}', np.abs(r1 - r2).max(), np.abs(r2).max(), desc)
+            # the option is a flag: hessian=False is the ordinary (u, v, w) form
+            try:
+                J3, r3 = NonlinearForm(hessian=False)(first_var).assemble(basis, x=x0)
+                check('hessian_mode', f'hessian-false:{cname}', abs(J3 - J2).max(), abs(J2).max(), dict(desc, option='hessian=False'))
+                check('hessian_mode', f'hessian-false:{cname}', np.abs(r3 - r2).max(), np.abs(r2).max(), dict(desc, option='hessian=False'))
+            except Exception as e:  # noqa: BLE001 - an exception on a documented option value is a failing input
+                ctx.fail(f'hessian-false:{cname}', f'NonlinearForm(hessian=False) raises {type(e).__name__}: {e}', dict(desc, option='hessian=False'))
     # composite basis (two unknowns, two test functions): Navier-Stokes-like residual
     _composite(ctx, rng, check)
     ctx.extra['nonlinear_max_relative_discrepancy'] = stats
